@@ -5,3 +5,5 @@ package main
 const c14RaceBuild = false
 
 func c14RaceReports() string { return "" }
+
+func c14RaceLogPath() string { return "" }
